@@ -44,6 +44,9 @@ pub enum Block {
     Raw(Vec<u8>),
     /// increment the 32-bit progress word (main-line counter; lets oracles see progress)
     Tick,
+    /// ends the run: masks interrupts, makes the entry of vector 8+n all ones and executes TRAPA #n - the frame is
+    /// pushed and PC goes where the entry says (ffffff, where nothing can be fetched)
+    TrapNowhere(u8),
     /// ends the run: writes `word` into the last word of a mapped region (0: DRAM 5ffffe, 1: vector area 0000fe) and
     /// jumps there - the first word of a multi-word instruction is readable, its operand words are not
     EdgeExec { word: u16, edge: u8 },
@@ -84,6 +87,9 @@ pub enum HandlerKind {
     Unmask(u16),
     /// BRN ; counter++ ; delay n ; RTE (stays masked)
     Slow(u16),
+    /// the handler of TRAPA #n's vector: BRN ; counter++ ; if counter < depth { TRAPA #n } ; RTE - `depth` exception
+    /// frames are outstanding at once, and no RTE runs before the innermost one
+    Recurse(u8, u16),
 }
 
 #[derive(Clone, Debug, Serialize, Deserialize, PartialEq)]
@@ -343,6 +349,20 @@ impl GuestSpec {
                     ha.delay(n.max(1));
                     ha.pop_l(3);
                 }
+                HandlerKind::Recurse(n, depth) => {
+                    if !(1..=3).contains(&n) || h.vector != 8 + n {
+                        return Err("a recursing handler serves its own trap vector".into());
+                    }
+                    let c = cnt.ok_or("recursing handler without a counter")?;
+                    ha.push_l(0);
+                    ha.mov_l_from_abs24(0, c);
+                    ha.inc_l1(0);
+                    ha.mov_l_to_abs24(0, c);
+                    ha.cmp_l_imm(0, depth as u32);
+                    ha.bcc8(2);
+                    ha.trapa(n);
+                    ha.pop_l(0);
+                }
             }
             let rte = ha.here();
             ha.rte();
@@ -568,6 +588,12 @@ impl GuestSpec {
                     a.mov_w_imm(0, *val);
                     a.w(0x6ba0);
                     a.l(*addr & 0x00ff_ffff);
+                }
+                Block::TrapNowhere(n) => {
+                    a.set_ccr_exact(0x80);
+                    a.mov_l_imm(4, 0xffff_ffff);
+                    a.mov_l_to_abs24(4, 4 * (8 + (*n as u32 & 3)));
+                    a.trapa(*n & 3);
                 }
                 Block::EdgeExec { word, edge } => {
                     let at = if *edge == 0 { 0x5ffffeu32 } else { 0x0000fe };
